@@ -169,11 +169,115 @@ theorem lastH_of_heights {items : List Item} {s n : Nat} (h : items.map (·.heig
     lastH items = s + n - 1 := by
   unfold lastH
   rw [← List.getLast?_map, h, List.getLast?_range']
-  trace_state; omega
+  rw [if_neg (by omega)]; rfl
 
 theorem sorted_of_heights {items : List Item} {s n : Nat} (h : items.map (·.height) = List.range' s n) :
     items.Pairwise (fun x y => x.height < y.height) := by
   have : (items.map (·.height)).Pairwise (· < ·) := by rw [h]; exact List.pairwise_lt_range'
   exact List.pairwise_map.mp this
+
+/-! ### consequences for one header iteration -/
+
+/-- the loop invariant transfers to the iteration (for the unchanged outcomes: the empty item list) -/
+theorem headersIter_inv (a : ANode) (script : List DAAns) :
+    ∃ items rem pre, LoopInv false a items (headersIter a script).1 rem (headersIter a script).2.1 pre ∧
+      (∀ it ∈ items, ∃ k b, a.n.hdrWm < k ∧ k ≤ a.n.store.height ∧ a.n.store.getBlock k = some b ∧
+        it = { height := b.sh.hdr.height, key := b.sh.hdr.hash }) := by
+  rcases headersIter_cases a script with ⟨h, _⟩ | ⟨h, _⟩ | ⟨bs, _, hbs, h⟩
+  · rw [h]; exact ⟨[], [], [], LoopInv.init false a [], by simp⟩
+  · rw [h]; exact ⟨[], [], [], LoopInv.init false a [], by simp⟩
+  · rw [h]
+    obtain ⟨rem, pre, hi, _⟩ := submitLoop_loopInv false maxSubmitAttempts a (hdrItems bs) script []
+    exact ⟨hdrItems bs, rem, pre, hi, hdrItems_mem hbs⟩
+
+theorem dataIter_inv (a : ANode) (script : List DAAns) :
+    ∃ items rem pre, LoopInv true a items (dataIter a script).1 rem (dataIter a script).2.1 pre ∧
+      (∀ it ∈ items, ∃ k b, a.n.dataWm < k ∧ k ≤ a.n.store.height ∧ a.n.store.getBlock k = some b ∧ b.data.txs ≠ [] ∧
+        it = { height := dataHeight b, key := b.data.daCommitment }) := by
+  rcases dataIter_cases a script with ⟨h, _⟩ | ⟨h, _⟩ | ⟨bs, _, hbs, _, h⟩
+  · rw [h]; exact ⟨[], [], [], LoopInv.init true a [], by simp⟩
+  · rw [h]; exact ⟨[], [], [], LoopInv.init true a [], by simp⟩
+  · rw [h]
+    obtain ⟨rem, pre, hi, _⟩ := submitLoop_loopInv true maxSubmitAttempts a (dataItems bs) script []
+    exact ⟨dataItems bs, rem, pre, hi, dataItems_mem hbs⟩
+
+/-- the header watermark stays at or below the chain height -/
+theorem headersIter_wm_le (a : ANode) (script : List DAAns) (hok : HdrOK a.n.store a.n.hdrWm)
+    (hle : a.n.hdrWm ≤ a.n.store.height) :
+    (headersIter a script).1.n.hdrWm ≤ (headersIter a script).1.n.store.height := by
+  obtain ⟨items, rem, pre, hi, hmem⟩ := headersIter_inv a script
+  rw [hi.frame.height]
+  rcases hi.wmFrom with e | ⟨l, hl, e⟩
+  · have e' : (headersIter a script).1.n.hdrWm = a.n.hdrWm := e
+    omega
+  · have e' : (headersIter a script).1.n.hdrWm = l.height := e
+    obtain ⟨k, b, k1, k2, hb, rfl⟩ := hmem l (by rw [hi.split]; exact List.mem_append_left _ hl)
+    obtain ⟨b', hb', hh⟩ := hok k k1 k2
+    rw [hb] at hb'
+    have : b = b' := by simpa using hb'
+    subst this
+    rw [e']; show b.sh.hdr.height ≤ _; omega
+
+/-- **retry until accepted**: if, after fewer failing answers than the attempt bound (none a cancellation), the DA layer
+accepts everything, the header watermark reaches the chain height in this very iteration -/
+theorem headersIter_reaches (a : ANode) (fails tail : List DAAns) (htail : tail.headD (.ok none) = .ok none)
+    (hnc : DAAns.canceled ∉ fails) (hf : fails.length < maxSubmitAttempts)
+    (hok : HdrOK a.n.store a.n.hdrWm) (hle : a.n.hdrWm ≤ a.n.store.height) :
+    (headersIter a (fails ++ tail)).1.n.hdrWm = (headersIter a (fails ++ tail)).1.n.store.height ∧
+    (a.n.hdrWm < a.n.store.height → (headersIter a (fails ++ tail)).2.2.2 = .done) := by
+  have hle' := headersIter_wm_le a (fails ++ tail) hok hle
+  rcases headersIter_cases a (fails ++ tail) with ⟨h, he⟩ | ⟨h, he⟩ | ⟨bs, hlt, hbs, h⟩
+  · rw [h]; exact ⟨he.symm, fun hh => by omega⟩
+  · exfalso
+    rcases he with he | he
+    · omega
+    · obtain ⟨bs, hbs⟩ := pendingBlocks_exists (s := a.n.store) (w := a.n.hdrWm)
+        (fun k k1 k2 => by obtain ⟨b, hb, _⟩ := hok k k1 k2; exact ⟨b, hb⟩)
+      rw [hbs] at he; simp at he
+  · rw [h] at hle' ⊢
+    have hall := submitLoop_retry false fails tail htail hnc maxSubmitAttempts hf a (hdrItems bs) [] []
+    have hwm := (submitLoop_wm_all false maxSubmitAttempts a (hdrItems bs) (fails ++ tail) []).1 hall
+    rw [lastH_of_heights (hdrItems_heights hbs hok) (by omega)] at hwm
+    obtain ⟨_, _, hi, _⟩ := submitLoop_loopInv false maxSubmitAttempts a (hdrItems bs) (fails ++ tail) []
+    have hh := hi.frame.height
+    simp only [iterOf] at hle' ⊢
+    have hwm' : a.n.hdrWm + 1 + (a.n.store.height - a.n.hdrWm) - 1 ≤
+        (submitLoop false maxSubmitAttempts a (hdrItems bs) (fails ++ tail) [] []).1.n.hdrWm := hwm
+    refine ⟨by omega, fun _ => by rw [hall]; rfl⟩
+
+/-- **soundness of the header watermark**: every height the iteration moved the watermark past is a stored block whose
+header blob the DA double stored during this iteration, and the block's hash is marked with that DA height -/
+theorem headersIter_sound (a : ANode) (script : List DAAns) (hok : HdrOK a.n.store a.n.hdrWm) :
+    ∀ h, a.n.hdrWm < h → h ≤ (headersIter a script).1.n.hdrWm →
+      ∃ b dh, a.n.store.getBlock h = some b ∧ b.sh.hdr.height = h ∧ a.daH ≤ dh ∧ dh < (headersIter a script).1.daH ∧
+        (dh, false, h) ∈ (headersIter a script).1.daBlobs ∧ (b.sh.hdr.hash, dh) ∈ (headersIter a script).1.hMarks := by
+  intro h h1 h2
+  rcases headersIter_cases a script with ⟨he, _⟩ | ⟨he, _⟩ | ⟨bs, hlt, hbs, he⟩
+  · rw [he] at h2; exact absurd h2 (by show ¬ h ≤ a.n.hdrWm; omega)
+  · rw [he] at h2; exact absurd h2 (by show ¬ h ≤ a.n.hdrWm; omega)
+  · rw [he] at h2 ⊢
+    simp only [iterOf] at h2 ⊢
+    have hhs := hdrItems_heights hbs hok
+    -- the watermark never exceeds the chain height, so `h` is in the pending range
+    have hle : (submitLoop false maxSubmitAttempts a (hdrItems bs) script [] []).1.n.hdrWm ≤ a.n.store.height := by
+      have := headersIter_wm_le a script hok (by omega)
+      rw [he] at this
+      obtain ⟨_, _, hi, _⟩ := submitLoop_loopInv false maxSubmitAttempts a (hdrItems bs) script []
+      have hh := hi.frame.height
+      simp only [iterOf] at this; omega
+    have hmem : h ∈ (hdrItems bs).map (·.height) := by
+      rw [hhs]; simp [List.mem_range']; exact ⟨h - (a.n.hdrWm + 1), by omega, by omega⟩
+    obtain ⟨it, hit, hith⟩ := List.mem_map.mp hmem
+    obtain ⟨dh, d1, d2, d3, d4⟩ := submitLoop_sound false maxSubmitAttempts a (hdrItems bs) script []
+      (sorted_of_heights hhs) it hit (by show a.n.hdrWm < it.height; omega)
+      (by show it.height ≤ (submitLoop false maxSubmitAttempts a (hdrItems bs) script [] []).1.n.hdrWm; omega)
+    obtain ⟨k, b, k1, k2, hb, rfl⟩ := hdrItems_mem hbs it hit
+    obtain ⟨b', hb', hh⟩ := hok k k1 k2
+    rw [hb] at hb'
+    have : b = b' := by simpa using hb'
+    subst this
+    have hk : k = h := by rw [← hh]; exact hith
+    subst hk
+    exact ⟨b, dh, hb, hh, d1, d2, by simpa [hh] using d3, d4⟩
 
 end Submit
